@@ -30,11 +30,15 @@ import (
 	"github.com/containerd/containerd/v2/core/images"
 	"github.com/containerd/containerd/v2/core/images/converter"
 	"github.com/containerd/containerd/v2/plugins/content/local"
+	"github.com/containerd/stargz-snapshotter/cache"
 	"github.com/containerd/stargz-snapshotter/estargz"
 	esgzexternaltoc "github.com/containerd/stargz-snapshotter/estargz/externaltoc"
 	"github.com/containerd/stargz-snapshotter/estargz/vrt"
 	"github.com/containerd/stargz-snapshotter/estargz/vrt/xsync/errgroup"
 	esgzzstd "github.com/containerd/stargz-snapshotter/estargz/zstdchunked"
+	fsreader "github.com/containerd/stargz-snapshotter/fs/reader"
+	"github.com/containerd/stargz-snapshotter/metadata"
+	memorymetadata "github.com/containerd/stargz-snapshotter/metadata/memory"
 	estargzconvert "github.com/containerd/stargz-snapshotter/nativeconverter/estargz"
 	extconvert "github.com/containerd/stargz-snapshotter/nativeconverter/estargz/externaltoc"
 	zstdconvert "github.com/containerd/stargz-snapshotter/nativeconverter/zstdchunked"
@@ -443,7 +447,8 @@ func (f finding) key(kind string) string {
 }
 
 type layerObs struct {
-	TOCEntries int
+	LibVerifyTOC string // observation about estargz.Reader.VerifyTOC (not the mount path)
+	TOCEntries   int
 	Chunked    bool
 	OutDigest  string
 }
@@ -546,7 +551,14 @@ func checkLayer(ctx context.Context, cs content.Store, kind string, src *srcInfo
 			fs = append(fs, checkZstdAnnotations(desc, raw)...)
 		}
 	}
-	// the library: Open + VerifyTOC(annotation)
+	ad, err := digest.Parse(ann)
+	if err != nil {
+		add("toc-digest-annotation-mismatch", "", "annotation %s=%q does not parse: %v", tocAnn, ann, err)
+		return
+	}
+	// the mount path of the snapshotter (fs/layer): metadata reader + fs/reader, VerifyTOC(annotation), read every file
+	fs = append(fs, mountVerify(k, raw, tocBlob, desc.Digest, ad, src)...)
+	// observation only: estargz.Reader.VerifyTOC (not used by the mount path)
 	var dopt estargz.OpenOption
 	switch k {
 	case enumx.KindZstd:
@@ -561,20 +573,91 @@ func checkLayer(ctx context.Context, cs content.Store, kind string, src *srcInfo
 		add("open-failed", "", "estargz.Open on the committed blob: %v", err)
 		return
 	}
-	ad, err := digest.Parse(ann)
+	if _, err := r.VerifyTOC(ad); err != nil {
+		switch {
+		case strings.Contains(err.Error(), "found twice"):
+			obs.LibVerifyTOC = "library-VerifyTOC-rejects-minchunk-stream"
+		case strings.Contains(err.Error(), "invalid TOC JSON"):
+			add("toc-digest-annotation-mismatch", "", "estargz.VerifyTOC(%s) on the committed blob: %v", ann, err)
+		default:
+			add("library-verifytoc-failed", "", "estargz.VerifyTOC(%s) on the committed blob: %v", ann, err)
+		}
+	}
+	return
+}
+
+// mountVerify opens the committed blob the way fs/layer does when a layer is mounted, verifies the
+// TOC against the annotation and reads every regular file of the source through the verifying reader.
+func mountVerify(k string, raw, tocBlob []byte, layer, ann digest.Digest, src *srcInfo) (fs []finding) {
+	add := func(class, qual, format string, a ...any) {
+		fs = append(fs, finding{class, qual, fmt.Sprintf(format, a...)})
+	}
+	decs := []metadata.Decompressor{new(esgzzstd.Decompressor)}
+	if k == enumx.KindExt {
+		decs = append(decs, esgzexternaltoc.NewGzipDecompressor(func() ([]byte, error) { return tocBlob, nil }))
+	}
+	meta, err := memorymetadata.NewReader(io.NewSectionReader(bytes.NewReader(raw), 0, int64(len(raw))), metadata.WithDecompressors(decs...))
 	if err != nil {
-		add("toc-digest-annotation-mismatch", "", "annotation %s=%q does not parse: %v", tocAnn, ann, err)
+		add("blob-does-not-mount", "metadata-reader", "mount path: metadata reader on the committed blob: %v", err)
 		return
 	}
-	if _, err := r.VerifyTOC(ad); err != nil {
+	vr, err := fsreader.NewReader(meta, cache.NewMemoryCache(), layer)
+	if err != nil {
+		add("blob-does-not-mount", "reader", "mount path: fs/reader.NewReader: %v", err)
+		return
+	}
+	defer vr.Close()
+	r, err := vr.VerifyTOC(ann)
+	if err != nil {
 		if strings.Contains(err.Error(), "invalid TOC JSON") {
-			add("toc-digest-annotation-mismatch", "", "estargz.VerifyTOC(%s) on the committed blob: %v", ann, err)
+			add("toc-digest-annotation-mismatch", "", "mount path: VerifyTOC(%s): %v", ann, err)
 		} else {
-			q := "other"
-			if strings.Contains(err.Error(), "found twice") {
-				q = "offset-found-twice"
+			add("blob-does-not-mount", "verify-toc", "mount path: VerifyTOC(%s): %v", ann, err)
+		}
+		return
+	}
+	ents, err := enumx.ParseTar(src.Tar)
+	if err != nil {
+		return []finding{{"harness", "", "source tar does not parse: " + err.Error()}}
+	}
+	for _, e := range enumx.LastWins(ents) {
+		n := enumx.Clean(e.Hdr.Name)
+		if e.Hdr.Typeflag != tar.TypeReg || landmarkNames[n] {
+			continue
+		}
+		id := meta.RootID()
+		var attr metadata.Attr
+		ok := true
+		for _, comp := range strings.Split(n, "/") {
+			cid, a, err := meta.GetChild(id, comp)
+			if err != nil {
+				add("blob-does-not-mount", "lookup", "mount path: file %q of the source is not reachable in the mounted layer (component %q): %v", n, comp, err)
+				ok = false
+				break
 			}
-			add("blob-does-not-verify", q, "the TOC digest annotation is right but estargz.VerifyTOC(%s) rejects the committed blob, so it cannot be mounted: %v", ann, err)
+			id, attr = cid, a
+		}
+		if !ok {
+			continue
+		}
+		if attr.Size != int64(len(e.Data)) {
+			add("blob-does-not-mount", "content", "mount path: file %q has size %d in the mounted layer, %d in the source", n, attr.Size, len(e.Data))
+			continue
+		}
+		ra, err := r.OpenFile(id)
+		if err != nil {
+			add("blob-does-not-mount", "open-file", "mount path: OpenFile(%q): %v", n, err)
+			continue
+		}
+		buf := make([]byte, attr.Size)
+		if len(buf) > 0 {
+			if m, err := ra.ReadAt(buf, 0); m != len(buf) || (err != nil && err != io.EOF) {
+				add("blob-does-not-mount", "read", "mount path: reading file %q through the verifying reader: %d of %d bytes, %v", n, m, len(buf), err)
+				continue
+			}
+		}
+		if !bytes.Equal(buf, e.Data) {
+			add("blob-does-not-mount", "content", "mount path: file %q read through the verifying reader differs from the source", n)
 		}
 	}
 	return
@@ -939,6 +1022,9 @@ func inputsPart(tier string) runner.Part {
 				res.States++
 				res.Transitions++
 				res.Outcomes[outcome]++
+				if obs.LibVerifyTOC != "" {
+					res.Outcomes[obs.LibVerifyTOC]++
+				}
 				if obs.OutDigest != "" && !outs[obs.OutDigest] && obs.TOCEntries >= 3 {
 					outs[obs.OutDigest] = true
 					res.Nontrivial++
